@@ -34,6 +34,7 @@ def event_ctor_sites(f, prefix):
 
 def run(ctx):
     c, p, res = ctx.c, ctx.p, ctx.r
+    shared.arming_key_is_cancelling_key(ctx, "R13")
     shared.declared_entries_kept(ctx, "R12", "_parse_invoke", "'invoke' entries", "the service is never started")
     sched = p.method("BaseInterpreter", "_schedule_state_tasks")
     shared.eligible_bucket_rules(ctx, "R9", "invoke")
